@@ -228,31 +228,40 @@ theorem extBodyBytes_wire (h : Header) (hwf : Pred.C01.wfH h = true) (hx : h.ext
   obtain ⟨b, hb⟩ := extBodyBytes_isOk h hwf hx
   simp [wireBody, hb]
 
-theorem hdrWire_length (h : Header) (hwf : Pred.C01.wfH h = true) :
+/-- a header whose elements can be serialised (the legacy payload is whole words); nothing about
+    ids, lengths, version, payload type or CSRC count -/
+def Ser (h : Header) : Prop := h.extension = true → extBodyBytes h = .ok (wireBody h)
+
+/-- the padding flag is set exactly when the padding size is 1–255 -/
+def PadOK (p : Packet) : Prop := p.header.padding = decide (1 ≤ p.paddingSize.toNat)
+
+theorem ser_of_wf (h : Header) (hwf : Pred.C01.wfH h = true) : Ser h := fun hx => extBodyBytes_wire h hwf hx
+
+theorem hdrWire_length_ser (h : Header) (hs : Ser h) :
     (hdrWire h).length = hdrMarshalSize h := by
   cases hx : h.extension
   · simp [hdrWire, hdrBytes, hdrMarshalSize, hx, fixedBytes_length]
-  · exact hdrBytes_length h _ (extBody_length h _ (extBodyBytes_wire h hwf hx))
+  · exact hdrBytes_length h _ (extBody_length h _ (hs hx))
 
-/-- `Header.MarshalTo` of a well-formed header into a sufficient destination -/
-theorem hdrMarshalTo_wf (h : Header) (hwf : Pred.C01.wfH h = true) (dst : Bytes)
+/-- `Header.MarshalTo` of a serialisable header into a sufficient destination -/
+theorem hdrMarshalTo_ser (h : Header) (hs : Ser h) (dst : Bytes)
     (hl : hdrMarshalSize h ≤ dst.length) :
     hdrMarshalTo h dst = .ok (hdrWire h ++ dst.drop (hdrMarshalSize h), hdrMarshalSize h) := by
   cases hx : h.extension
   · rw [hdrMarshalTo_noext h dst hx hl]; simp [hdrWire, hdrBytes, hx]
-  · exact hdrMarshalTo_ext h _ dst hx (extBodyBytes_wire h hwf hx) hl
+  · exact hdrMarshalTo_ext h _ dst hx (hs hx) hl
 
 /-- `Header.MarshalTo` into a destination that is too short (any header) -/
 theorem hdrMarshalTo_short (h : Header) (dst : Bytes) (hl : dst.length < hdrMarshalSize h) :
     hdrMarshalTo h dst = .err .shortBuffer := by
   unfold hdrMarshalTo; rw [if_pos hl]
 
-/-- `Header.Marshal` of a well-formed header -/
-theorem hdrMarshal_wf (h : Header) (hwf : Pred.C01.wfH h = true) : hdrMarshal h = .ok (hdrWire h) := by
+/-- `Header.Marshal` of a serialisable header -/
+theorem hdrMarshal_ser (h : Header) (hs : Ser h) : hdrMarshal h = .ok (hdrWire h) := by
   unfold hdrMarshal
-  rw [hdrMarshalTo_wf h hwf _ (by simp [rep])]
+  rw [hdrMarshalTo_ser h hs _ (by simp [rep])]
   simp only [rep, Res.ok.injEq]
-  rw [List.drop_of_length_le (by simp), List.append_nil, ← hdrWire_length h hwf, List.take_length]
+  rw [List.drop_of_length_le (by simp), List.append_nil, ← hdrWire_length_ser h hs, List.take_length]
 
 /-! ### closed form of Packet.MarshalTo -/
 
@@ -270,14 +279,9 @@ theorem padBytes_length (p : Packet) (hp : p.header.padding = decide (1 ≤ p.pa
 /-- the serialised form of a packet -/
 def pktWire (p : Packet) : Bytes := hdrWire p.header ++ (p.payload ++ padBytes p)
 
-theorem wfP_iff (p : Packet) : Pred.C01.wfP p = true ↔
-    Pred.C01.wfH p.header = true ∧ p.header.padding = decide (1 ≤ p.paddingSize.toNat) := by
-  simp [Pred.C01.wfP]
-
-theorem pktWire_length (p : Packet) (hwf : Pred.C01.wfP p = true) :
+theorem pktWire_length_ser (p : Packet) (hs : Ser p.header) (hp : PadOK p) :
     (pktWire p).length = pktMarshalSize p := by
-  obtain ⟨hh, hp⟩ := (wfP_iff p).1 hwf
-  simp only [pktWire, List.length_append, hdrWire_length _ hh, padBytes_length p hp, pktMarshalSize]
+  simp only [pktWire, List.length_append, hdrWire_length_ser _ hs, padBytes_length p hp, pktMarshalSize]
   omega
 
 theorem padding_ok (p : Packet) (hp : p.header.padding = decide (1 ≤ p.paddingSize.toNat)) :
@@ -287,18 +291,17 @@ theorem padding_ok (p : Packet) (hp : p.header.padding = decide (1 ≤ p.padding
     simp [hp, h, this]
   · simp [hp, h]
 
-/-- `Packet.MarshalTo` of a well-formed packet into a sufficient destination -/
-theorem pktMarshalTo_wf (p : Packet) (hwf : Pred.C01.wfP p = true) (dst : Bytes)
+/-- `Packet.MarshalTo` of a serialisable packet with a consistent padding flag into a sufficient destination -/
+theorem pktMarshalTo_ser (p : Packet) (hs' : Ser p.header) (hp : PadOK p) (dst : Bytes)
     (hl : pktMarshalSize p ≤ dst.length) :
     pktMarshalTo p dst = .ok (pktWire p ++ dst.drop (pktMarshalSize p), pktMarshalSize p) := by
-  obtain ⟨hh, hp⟩ := (wfP_iff p).1 hwf
   have hpl := padBytes_length p hp
-  have hW := hdrWire_length _ hh
+  have hW := hdrWire_length_ser _ hs'
   have hs : pktMarshalSize p = hdrMarshalSize p.header + p.payload.length + p.paddingSize.toNat := rfl
   unfold pktMarshalTo
   rw [padding_ok p hp]
   simp only [Bool.false_eq_true, if_false]
-  rw [hdrMarshalTo_wf _ hh dst (by omega)]
+  rw [hdrMarshalTo_ser _ hs' dst (by omega)]
   simp only
   rw [if_neg (by omega)]
   -- cut the rest of the destination into payload segment, padding segment, remainder
@@ -330,25 +333,57 @@ theorem pktMarshalTo_wf (p : Packet) (hwf : Pred.C01.wfP p = true) (dst : Bytes)
     simp only [hpad, pktWire, hz, hx2', List.append_nil, List.nil_append, List.append_assoc, hs]
     simp
 
-/-- `Packet.Marshal` of a well-formed packet -/
-theorem pktMarshal_wf (p : Packet) (hwf : Pred.C01.wfP p = true) : pktMarshal p = .ok (pktWire p) := by
+/-- `Packet.Marshal` of a serialisable packet with a consistent padding flag -/
+theorem pktMarshal_ser (p : Packet) (hs' : Ser p.header) (hp : PadOK p) : pktMarshal p = .ok (pktWire p) := by
   unfold pktMarshal
-  rw [pktMarshalTo_wf p hwf _ (by simp [rep])]
+  rw [pktMarshalTo_ser p hs' hp _ (by simp [rep])]
   simp only [rep, Res.ok.injEq]
-  rw [List.drop_of_length_le (by simp), List.append_nil, ← pktWire_length p hwf, List.take_length]
+  rw [List.drop_of_length_le (by simp), List.append_nil, ← pktWire_length_ser p hs' hp, List.take_length]
 
-/-- `Packet.MarshalTo` of a well-formed packet into a destination that is too short -/
-theorem pktMarshalTo_short (p : Packet) (hwf : Pred.C01.wfP p = true) (dst : Bytes)
+/-- `Packet.MarshalTo` into a destination that is too short -/
+theorem pktMarshalTo_short_ser (p : Packet) (hs' : Ser p.header) (hp : PadOK p) (dst : Bytes)
     (hl : dst.length < pktMarshalSize p) : pktMarshalTo p dst = .err .shortBuffer := by
-  obtain ⟨hh, hp⟩ := (wfP_iff p).1 hwf
   have hs : pktMarshalSize p = hdrMarshalSize p.header + p.payload.length + p.paddingSize.toNat := rfl
   unfold pktMarshalTo
   rw [padding_ok p hp]
   simp only [Bool.false_eq_true, if_false]
   by_cases h1 : dst.length < hdrMarshalSize p.header
   · rw [hdrMarshalTo_short _ _ h1]
-  · rw [hdrMarshalTo_wf _ hh dst (by omega)]
+  · rw [hdrMarshalTo_ser _ hs' dst (by omega)]
     simp only
     rw [if_pos (by omega)]
+
+theorem wfP_iff (p : Packet) : Pred.C01.wfP p = true ↔
+    Pred.C01.wfH p.header = true ∧ p.header.padding = decide (1 ≤ p.paddingSize.toNat) := by
+  simp [Pred.C01.wfP]
+
+
+/-! ### the same for well-formed values (C01's domain implies both conditions) -/
+
+theorem hdrWire_length (h : Header) (hwf : Pred.C01.wfH h = true) : (hdrWire h).length = hdrMarshalSize h :=
+  hdrWire_length_ser h (ser_of_wf h hwf)
+
+theorem hdrMarshalTo_wf (h : Header) (hwf : Pred.C01.wfH h = true) (dst : Bytes)
+    (hl : hdrMarshalSize h ≤ dst.length) :
+    hdrMarshalTo h dst = .ok (hdrWire h ++ dst.drop (hdrMarshalSize h), hdrMarshalSize h) :=
+  hdrMarshalTo_ser h (ser_of_wf h hwf) dst hl
+
+theorem hdrMarshal_wf (h : Header) (hwf : Pred.C01.wfH h = true) : hdrMarshal h = .ok (hdrWire h) :=
+  hdrMarshal_ser h (ser_of_wf h hwf)
+
+theorem pktWire_length (p : Packet) (hwf : Pred.C01.wfP p = true) : (pktWire p).length = pktMarshalSize p :=
+  pktWire_length_ser p (ser_of_wf _ ((wfP_iff p).1 hwf).1) ((wfP_iff p).1 hwf).2
+
+theorem pktMarshalTo_wf (p : Packet) (hwf : Pred.C01.wfP p = true) (dst : Bytes)
+    (hl : pktMarshalSize p ≤ dst.length) :
+    pktMarshalTo p dst = .ok (pktWire p ++ dst.drop (pktMarshalSize p), pktMarshalSize p) :=
+  pktMarshalTo_ser p (ser_of_wf _ ((wfP_iff p).1 hwf).1) ((wfP_iff p).1 hwf).2 dst hl
+
+theorem pktMarshal_wf (p : Packet) (hwf : Pred.C01.wfP p = true) : pktMarshal p = .ok (pktWire p) :=
+  pktMarshal_ser p (ser_of_wf _ ((wfP_iff p).1 hwf).1) ((wfP_iff p).1 hwf).2
+
+theorem pktMarshalTo_short (p : Packet) (hwf : Pred.C01.wfP p = true) (dst : Bytes)
+    (hl : dst.length < pktMarshalSize p) : pktMarshalTo p dst = .err .shortBuffer :=
+  pktMarshalTo_short_ser p (ser_of_wf _ ((wfP_iff p).1 hwf).1) ((wfP_iff p).1 hwf).2 dst hl
 
 end Rtp.Proofs.PacketRt
